@@ -251,7 +251,9 @@ class RuntimeName(Name, Object, Callable):
         if isinstance(self.value, type):
             try:
                 self._instance = RuntimeName('__none__', self.value())
-            except TypeError:
+            except Exception:
+                # a type which can't be instantiated without arguments, it
+                # can raise anything (super() raises RuntimeError)
                 pass
 
         return self._instance
